@@ -39,6 +39,14 @@ def script(rng, lay, with_die=True):
     for c in cs:
         ev.append({"k": "unpend", "c": c})
     ev += [{"k": "conn", "s": p} for p in order[:2]]
+    # the same, with the Pending answer arriving in the middle of ONE worker poll (right after a call) and a client
+    # connecting during that very readiness sweep
+    c = rng.randint(1, ncalls)
+    socks_c = [p for p in range(1, n + 1) if sock_call(lay, p) == c]
+    if socks_c:
+        ev.append({"k": "pendrace", "c": c, "s": rng.choice(socks_c)})
+        ev.append({"k": "unpend", "c": c})
+        ev += [{"k": "conn", "s": p} for p in order[:2]]
     if with_die:
         ev.append({"k": "die", "s": rng.randint(1, n)})
         for _ in range(2):
@@ -48,6 +56,18 @@ def script(rng, lay, with_die=True):
         ev.append({"k": "fail", "c": c})
         ev += [{"k": "conn", "s": p} for p in order]
     return ev
+
+
+def sock_call(lay, p):
+    """the builder call (1-based) that bound socket p (1-based) of the layout"""
+    k = 0
+    for ci, c in enumerate(lay["calls"]):
+        for ok in (c["addrs"] if c["kind"] == "bind" else [True]):
+            if ok:
+                k += 1
+                if k == p:
+                    return ci + 1
+    return 0
 
 
 def interesting(lay):
